@@ -2,8 +2,9 @@
 (* every (response kind, transport, configured algorithm, deviation) case of Pdu.tla with the verdict the receiver must reach *)
 EXTENDS Integers, Sequences, FiniteSets, TLC, Json, Pdu
 Kinds == {"aggr", "ext", "aggrconf", "extconf"}
-Transports(k) == IF k = "aggr" THEN {"blocking", "async", "ha"} ELSE {"blocking"}
-Cases == {[kind |-> k, transport |-> t, alg |-> a, dev |-> d] : k \in Kinds, t \in {"blocking", "async", "ha"}, a \in {1, 5}, d \in Deviations}
+(* blocking = blocking TCP client, http = blocking HTTP client (scripted libcurl), async / ha = asynchronous TCP service, high-availability service *)
+Transports(k) == IF k = "aggr" THEN {"blocking", "http", "async", "ha"} ELSE {"blocking", "http"}
+Cases == {[kind |-> k, transport |-> t, alg |-> a, dev |-> d] : k \in Kinds, t \in {"blocking", "http", "async", "ha"}, a \in {1, 5}, d \in Deviations}
 VARIABLE c
 Init == c \in {x \in Cases : x.transport \in Transports(x.kind)}
 Next == UNCHANGED c
